@@ -234,6 +234,24 @@ EXTRA12 = {
 }
 for _pid, _t in EXTRA12.items():
     EXTRA[_pid] = EXTRA.get(_pid, '') + ' ' + _t
+EXTRA13 = {
+ 'C01': 'The first use of every fresh optic comes from four goroutines at once.',
+ 'C02': 'Pointers convertible to *S (defined types over S, defined pointer types) as wrong arguments of a Reflector.',
+ 'C03': 'New with empty lists of names of every provenance.',
+ 'C04': 'Identity (storage, length, capacity) of the slice through BiMapB.',
+ 'C05': 'Take with counts up to MaxInt; stages over struct{} channels of capacities up to 2^62.',
+ 'C07': 'StdErr between two Try stages keeps the capacity; values-first and errors-first readers.',
+ 'C10': 'Combine calls that wait for each other (a barrier of par combinations; one worker held while the others fold the rest).',
+ 'C13': 'Rates of 2^40 and MaxInt per interval on the real clock (a call that never returns ends inconclusive).',
+ 'C14': 'Interface element types with nil elements.',
+ 'C16': 'Visitors failing with nil-valued error values; function payloads whose signature differs from the type parameters.',
+ 'C17': 'Empty() of slice monoids is the very slice given.',
+ 'C18': 'Driven node heights through the build-tagged hook: every height configuration of small histories, draws at the ends of the range and at the thresholds of the level table.',
+ 'C19': 'One sequence walked by four goroutines at once.',
+ 'C20': 'Compositions stored and used as stages of later compositions.',
+}
+for _pid, _t in EXTRA13.items():
+    EXTRA[_pid] = EXTRA.get(_pid, '') + ' ' + _t
 for _pid, _t in EXTRA.items():
     TEXT[_pid]['text'] += ' ' + _t
 TEXT['C09']['note'] = 'Fail-fast (Lift) mode is exercised at scale only for closure, no-leak and "errors only for failing elements" (which workers fail first is not determined); the multiset verdict is for Pure and Try modes. Distinct output orders are counted per child process.'
